@@ -70,19 +70,23 @@ CHECKS = {
               'Bounded: 2 user columns, <=2 rows.')),
     'C09': dict(
         level='model_checking',
-        technique='TLC model checking of Lifecycle.tla (every interleaving within bounds) + replay of exported histories into rsome.ro against from-scratch builds of the declared sets',
+        technique='TLC model checking of Lifecycle.tla / DroLifecycle.tla / Sharing.tla (every interleaving within bounds) + replay of exported histories into rsome.ro / rsome.dro against from-scratch builds of the declared sets and exact per-use values',
         design_ref='DESIGN.md 2.2, 5/C09, appendix E',
         text=('Lifecycle.tla is implementation shaped: one shared support model whose six constraint lists are reset and re-filled by every '
               'forall/minmax and snapshotted into the constraint, pupdate-guarded formula cache, solve/soc_solve, plus ghost state (the set the '
               'user attached, declaration generation). TLC checks NoSetLeak, CacheCoherent, SolveUsesCurrent on every interleaving (folded by a '
               'VIEW) and exports complete histories (all short ones; long ones by -simulate with a forced closing solve). Each history is executed '
               'on a real model; after every solve each constraint must report the worst case of the set DECLARED for it, obtained from a fresh '
-              'single-constraint model in which nothing can leak (one item kind per support-model list, distinct radii so any leaked or lost item moves the value).'),
+              'single-constraint model in which nothing can leak (one item kind per support-model list, distinct radii so any leaked or lost item moves the value). '
+              'The dual cache is transcribed too (ro -> rc model, DualCurrent): do_math(primal=False) before and after a change must return the dual of the current declaration '
+              '(its optimum is compared with the current primal). Sharing.tla covers the last clause of the property: one expression OBJECT handed to a sequence of constructs '
+              '(row, E(), E(maxof), maxof, negation, scaling, a set definition, with a variable declared in between) must mean in every use what that use declares '
+              '(MeaningIndependent; TLC finds the violating history on the transcription of the code before repair 87ff84f); every use has its own epigraph variable with an exact closed-form value.'),
         note=('Relational oracle (same library, fresh model), as the property is stated; C01 covers absolute correctness. DroLifecycle.tla covers the dro life cycle (ambiguity(), supports per scenario, late dvar/adapt, st, solve); '
               'late rvar is a known finding; mix_support is not in the action alphabet. ECOS tolerance 2e-5 (5e-4 with p-norm/exp items).')),
     'C17': dict(
         level='model_checking',
-        technique='TLC action properties MisuseIsolated / Model2Isolated on Lifecycle.tla + replay of histories with cross-model misuse steps into two real models',
+        technique='TLC action properties MisuseIsolated / Model2Isolated on Lifecycle.tla + replay of histories with interleaved misuses on two real models; Misuse.tla: the table misuse kind x victim class x bystander class (lp, socp, gcp, ro, dro) x before/after a solve, every case replayed',
         design_ref='DESIGN.md 2.2, 5/C17',
         text=('Seven misuse actions (adding a foreign deterministic / robust constraint, foreign set in forall and minmax, foreign variable in an '
               'expression, reading an unsolved model, non-scalar objective, second objective) and the actions of a second model are interleaved with '
